@@ -900,6 +900,16 @@ impl<'p> World<'p> {
             self.violate("C03", "reference-decodes-differently", bk, &op, "", "the independent implementation recovers a different message from this token".into());
             return;
         }
+        // paseto-v3 (RustCrypto) signs deterministically: RFC 6979 nonce + low-s, recomputed here
+        if bk == Bk::V3 && purpose == Purp::Public {
+            if let Some(sk_raw) = krec.raw.as_ref() {
+                match refimpl::v3_public_deterministic(sk_raw, &m, &footer, aad) {
+                    Some(rt) if rt == text => self.stats.bump("crosscheck:rfc6979-signature-bit-exact"),
+                    Some(rt) => self.violate("C03", "not-bit-exact", bk, &op, "rfc6979", format!("RFC 6979 + low-s prescribes {} but the library produced {}", truncate(&rt, 90), truncate(text, 90))),
+                    None => self.stats.bump("crosscheck:rfc6979-unavailable"),
+                }
+            }
+        }
         // bit-exactness for the nonce the token contains (deterministic constructions only)
         let Some(sk_raw) = krec.raw.as_ref() else { return };
         let deterministic = purpose == Purp::Local || matches!(f, 2 | 4);
